@@ -472,6 +472,84 @@ Section WithCipher.
       end
     end.
 
+  (** ** Management operations interleaved with the PDUs of a history.
+
+      [AddKey key seq] = NWKManager.add_key(key, key_sequence_number=seq): a material whose KEY
+      is already in the set is ignored whatever its sequence number (NetworkSecurityMaterial.__eq__
+      compares the keys), otherwise a material with an empty counter table is appended.
+      [SetActive seq] = database.set("nwkActiveKeySeqNumber", seq) (used by the transmit path only).
+      [RemoveKey key] = the material with that key taken out of nwkSecurityMaterialSet
+      (list.remove on the NWKIB attribute, then database.set). *)
+  Inductive mgmt : Type := AddKey (key : bytes) (seq : N) | SetActive (seq : N) | RemoveKey (key : bytes).
+  Inductive hitem : Type := HPdu (p : npdu) | HMgmt (m : mgmt).
+
+  Fixpoint has_key (key : bytes) (ms : list material) : bool :=
+    match ms with [] => false | m :: r => bytes_eqb (m_key m) key || has_key key r end.
+  Fixpoint remove_key (key : bytes) (ms : list material) : list material :=
+    match ms with
+    | [] => []
+    | m :: r => if bytes_eqb (m_key m) key then r else m :: remove_key key r
+    end.
+
+  (** NWK layer state for these histories: the NWKIB attributes of [nwk] and nwkActiveKeySeqNumber *)
+  Definition hstate : Type := (nwk * N)%type.
+
+  Definition apply_mgmt (hs : hstate) (m : mgmt) : hstate :=
+    let '(st, act) := hs in
+    match m with
+    | AddKey key seq => if has_key key (n_mats st) then hs
+                        else (with_mats st (n_mats st ++ [mkMat seq key []]), act)
+    | SetActive seq => (st, seq)
+    | RemoveKey key => (with_mats st (remove_key key (n_mats st)), act)
+    end.
+
+  Definition hstep (hs : hstate) (it : hitem) : option outcome * hstate :=
+    match it with
+    | HPdu p => let '(o, st1) := nwk_step (fst hs) p in (Some o, (st1, snd hs))
+    | HMgmt m => (None, apply_mgmt hs m)
+    end.
+
+  (** trace of a history: every item with the state it found and what it produced *)
+  Fixpoint htrace (hs : hstate) (items : list hitem) : list (hitem * hstate * option outcome) :=
+    match items with
+    | [] => []
+    | it :: r => let '(o, hs1) := hstep hs it in (it, hs, o) :: htrace hs1 r
+    end.
+
+  (** the key of the material NWKManager.decrypt selects for a frame *)
+  Definition sel_key (st : nwk) (f : frame) : option bytes :=
+    match kseq_of f with
+    | Some k => match select k (n_mats st) with Some m => Some (m_key m) | None => None end
+    | None => None
+    end.
+
+  (** accepted secured frames of a history with management operations:
+      (key of the selected material, sender, counter) *)
+  Definition kevent : Type := (bytes * bytes * N)%type.
+  Fixpoint haccepted (hs : hstate) (items : list hitem) : list kevent :=
+    match items with
+    | [] => []
+    | it :: r =>
+      let '(o, hs1) := hstep hs it in
+      match it, o with
+      | HPdu (Secured f), Some (UpSecured _ _) =>
+          match sel_key (fst hs) f with
+          | Some K => (K, sender_of f, f_fc f) :: haccepted hs1 r
+          | None => haccepted hs1 r
+          end
+      | _, _ => haccepted hs1 r
+      end
+    end.
+
+  (** the incoming-counter table of the material holding [key] *)
+  Fixpoint find_key (key : bytes) (ms : list material) : option material :=
+    match ms with
+    | [] => None
+    | m :: r => if bytes_eqb (m_key m) key then Some m else find_key key r
+    end.
+  Definition stored_k (st : nwk) (key a : bytes) : option N :=
+    match find_key key (n_mats st) with Some m => lookup a (m_in m) | None => None end.
+
   (** ** Application support sub-layer: APSManager.decrypt / on_nlde_data
 
       apsDeviceKeyPairSet = list of (device short address or None for a pre-installed key,
@@ -606,6 +684,20 @@ Fixpoint fresh_hist (T : N -> bytes -> option N) (evs : list event) : Prop :=
   | [] => True
   | (k, a, c) :: r => (forall c0, T k a = Some c0 -> c0 <= c) /\ fresh_hist (bump T k a c) r
   end.
+
+(** the same invariant for histories with management operations: events keyed by the key itself *)
+Definition bump_k (T : bytes -> bytes -> option N) (K a : bytes) (c : N) : bytes -> bytes -> option N :=
+  fun K' a' => if bytes_eqb K' K && bytes_eqb a' a then Some (c + 1) else T K' a'.
+
+Fixpoint fresh_hist_k (T : bytes -> bytes -> option N) (evs : list kevent) : Prop :=
+  match evs with
+  | [] => True
+  | (K, a, c) :: r => (forall c0, T K a = Some c0 -> c0 <= c) /\ fresh_hist_k (bump_k T K a c) r
+  end.
+
+(** a history that never removes the material holding [K] *)
+Definition never_removes (K : bytes) (items : list hitem) : Prop :=
+  Forall (fun it => match it with HMgmt (RemoveKey K') => K' <> K | _ => True end) items.
 
 (** ** correspondence entry points (evaluated by the harness with E := aes128_enc) *)
 
@@ -743,6 +835,27 @@ Definition aps_up_eqb (o : aps_outcome) (b : obs_aps) : bool :=
 
 Definition check_aps (c : aps * list (nsdu * obs_aps)) : bool :=
   let '(st, ps) := c in forallb (fun po => aps_up_eqb (aps_step aes128_enc st (fst po)) (snd po)) ps.
+
+(** NWK history with management operations: per item the observed delivery (ObsNone for a management
+    operation) and, for every material in order, (sequence number, key, counter table) *)
+Fixpoint ktables_eqb (ms : list material) (obs : list (N * bytes * list (bytes * N))) : bool :=
+  match ms, obs with
+  | [], [] => true
+  | m :: r, (k, key, t) :: r' => (m_seq m =? k) && bytes_eqb (m_key m) key && table_eqb (m_in m) t && ktables_eqb r r'
+  | _, _ => false
+  end.
+
+Fixpoint check_hsteps (hs : hstate) (ps : list (hitem * obs_up * N * list (N * bytes * list (bytes * N)))) : bool :=
+  match ps with
+  | [] => true
+  | (it, o, act, t) :: r =>
+    let '(o', hs') := hstep aes128_enc hs it in
+    match o' with Some x => up_eqb x o | None => match o with ObsNone => true | _ => false end end
+    && (snd hs' =? act) && ktables_eqb (n_mats (fst hs')) t && check_hsteps hs' r
+  end.
+
+Definition check_nwk_mgmt (c : hstate * list (hitem * obs_up * N * list (N * bytes * list (bytes * N)))) : bool :=
+  let '(hs, ps) := c in check_hsteps hs ps.
 
 (** boolean form of the freshness theorem's conclusion, for the model-side search *)
 Fixpoint strictly_fresh_b (evs : list event) : bool :=
